@@ -368,13 +368,13 @@ func mutateValue(r *Rng, v any) any {
 
 // strings that have the lexical shape of a format (valid and borderline members)
 var formatShaped = map[string][]string{
-	"date":      {"2020-01-02", "2023-02-30", "1999-11-31", "2021-12-31", "0000-01-01", "2024-02-29", "2023-04-31"},
-	"date-time": {"2020-01-02T03:04:05Z", "2023-02-30T23:59:60Z", "1999-11-31T00:00:00+01:00", "2021-12-31T23:59:59.999Z"},
-	"byte":      {"Zm9v", "Zm9vYg==", "Zm9vYmE=", "=Zm9", "Zm9v===="},
-	"email":     {"a@b.co", "x.y@z", "q@q@q", "no-at"},
+	"date":       {"2020-01-02", "2023-02-30", "1999-11-31", "2021-12-31", "0000-01-01", "2024-02-29", "2023-04-31"},
+	"date-time":  {"2020-01-02T03:04:05Z", "2023-02-30T23:59:60Z", "1999-11-31T00:00:00+01:00", "2021-12-31T23:59:59.999Z"},
+	"byte":       {"Zm9v", "Zm9vYg==", "Zm9vYmE=", "=Zm9", "Zm9v===="},
+	"email":      {"a@b.co", "x.y@z", "q@q@q", "no-at"},
 	"x-noreason": {"1a", "abc", "9", "x9"},
-	"x-wrapped": {"1.2.3.4", "999.1.1.1", "host.example", "10.0.0.256"},
-	"uuid":      {"123e4567-e89b-12d3-a456-426614174000", "00000000-0000-0000-0000-000000000000", "123e4567-e89b-62d3-a456-426614174000"},
+	"x-wrapped":  {"1.2.3.4", "999.1.1.1", "host.example", "10.0.0.256"},
+	"uuid":       {"123e4567-e89b-12d3-a456-426614174000", "00000000-0000-0000-0000-000000000000", "123e4567-e89b-62d3-a456-426614174000"},
 }
 
 func sortedKeys[V any](m map[string]V) []string {
